@@ -63,7 +63,18 @@ def py_fn(fn):
     if name == "dropLast":
         return lambda v, i, m: v[:-1]
     if name == "byIdMd":
-        return lambda v, i, m: v * float(len(str(i)) + (0 if m is None else 1 + len(m)))
+        return lambda v, i, m: v * float(len(str(i)) + (0 if m is None else
+                                                        1 + sum(1 for x in m.values() if x is not None)))
+    if name == "byMdKey":
+        key = fn["key"]
+
+        def f(v, i, m):
+            x = None if m is None else m[key]     # plain subscription: relies on the entry's default
+            k = x if (isinstance(x, int) and not isinstance(x, bool)) else (1 if x is None else 2)
+            return v * float(k)
+        return f
+    if name == "byIdChar":
+        return lambda v, i, m: v * float(ord(str(i)[0]) % 3 + 1)
     if name == "pa":
         return lambda v, i, m: np.where(v != 0, 1., 0.)
     raise ValueError(name)
@@ -73,6 +84,11 @@ ELEMENTWISE = [{"name": "scale", "k": "2"}, {"name": "scale", "k": "1/2"}, {"nam
                {"name": "scale", "k": "0"}, {"name": "scale", "k": "3"}, {"name": "square"}, {"name": "addOne"},
                {"name": "zeroBelow", "k": "3"}, {"name": "zeroBelow", "k": "10"}]
 VECTORWISE = [{"name": "zeroOdd"}, {"name": "fillSum"}, {"name": "reverse"}, {"name": "byIdMd"}]
+# functions whose value depends on the ID text and on md[key] for keys held by all / some / no entries
+ARGUSERS = [{"name": "byIdMd"}, {"name": "byIdChar"}, {"name": "byMdKey", "key": "factor"},
+            {"name": "byMdKey", "key": "depth"}, {"name": "byMdKey", "key": "grp"}, {"name": "byMdKey", "key": "nokey"}]
+# functions that can never turn a non-zero value into zero
+NONZEROING = ("square", "reverse", "byIdMd", "byIdChar")
 KERNEL_ONLY = [{"name": "bcastSum"}, {"name": "dropLast"}]
 # functions that only CARRY values (move, negate, double, compare, zero): exact in binary64 whatever the magnitude,
 # so they may be run on tiny / huge values without leaving the model's exact arithmetic
@@ -100,15 +116,38 @@ def cs_json(arr):
             "indices": [int(x) for x in arr.indices], "data": [core.frac(x) for x in arr.data]}
 
 
+def canon_md_entry(m):
+    """metadata entries are defaultdict(lambda: None): `entry[key]` answers None for a key it does not hold — and
+    stores the key while doing so.  A key holding None is therefore the same observation as an absent key."""
+    return {k: v for k, v in core.canon_md_entry(m).items() if v != "null"}
+
+
+def canon_md(md):
+    return None if md is None else [canon_md_entry(m) for m in md]
+
+
+def table_obs(t):
+    o = core.table_obs(t)
+    for k in ("omd", "smd"):
+        if o[k] is not None:
+            o[k] = [{kk: v for kk, v in e.items() if v != "null"} for e in o[k]]
+    return o
+
+
 class Logger:
     def __init__(self, f):
         self.f = f
         self.log = []
 
     def __call__(self, v, id_, md):
+        # a re-entrant function first reads the table (which may reorder the matrix in place: `v` is a view), then
+        # computes: what it is applied to is what `v` shows when it computes
+        pre = getattr(self.f, "pre", None)
+        if pre is not None:
+            pre()
         args = [core.frac(x) for x in v]
-        ret = self.f(v, id_, md)
-        self.log.append({"id": str(id_), "md": None if md is None else core.canon_md_entry(md), "args": args,
+        ret = (self.f.core if pre is not None else self.f)(v, id_, md)
+        self.log.append({"id": str(id_), "md": None if md is None else canon_md_entry(md), "args": args,
                          "ret": [core.frac(x) for x in np.asarray(ret, dtype=float).ravel()]})
         return ret
 
@@ -182,7 +221,7 @@ def check_kernel(ctx, impls, case, tags=()):
         obs = {"error": core.err_name(e)}
     has_zero = any(x == "0" for x in case["data"])
     ctx.case(case, nontrivial=nM >= 1 and len(case["data"]) >= 2)
-    r = ctx.driver.ask({"op": "kernel", "cs": cs, "ids": case["ids"], "mds": core.canon_md(mds), "fn": case["fn"],
+    r = ctx.driver.ask({"op": "kernel", "cs": cs, "ids": case["ids"], "mds": canon_md(mds), "fn": case["fn"],
                         "obs": obs})
     ctx.count("kernel:%s" % case["impl"])
     ctx.count("kernel:fn=%s" % case["fn"]["name"])
@@ -198,6 +237,73 @@ def check_kernel(ctx, impls, case, tags=()):
 
 
 # ----------------------------------------------------------------------------- table level
+def hetero_md(rng, ids):
+    """one mapping-or-None per ID with DIFFERENT keys: some entries lack keys others have, some are empty or None"""
+    out = []
+    for k, _ in enumerate(ids):
+        c = rng.random()
+        if c < 0.2:
+            out.append(None)
+        elif c < 0.35:
+            out.append({})
+        else:
+            e = {}
+            if rng.random() < 0.6:
+                e["factor"] = rng.randint(0, 4)
+            if rng.random() < 0.6:
+                e["depth"] = rng.choice([rng.randint(0, 5), True, 2.5])
+            if rng.random() < 0.5:
+                e["grp"] = rng.choice(["a", "b", 3])
+            out.append(e)
+    if all(not e for e in out):
+        out[rng.randrange(len(out))] = {"factor": 3}
+    return out
+
+
+def reentrant(f, t, seed, allow_nnz, only=None):
+    """a user function that reads the table being transformed while the transform runs (spike-in scaling, blank
+    subtraction …): its VALUE is still f of its arguments, the reads are side-effect free from the user's view"""
+    rr = random.Random(seed)
+    obs, samp = [str(i) for i in t.ids(axis="observation")], [str(i) for i in t.ids()]
+    kinds = ["data-obs", "data-samp", "cell", "iter-obs", "iter-samp", "sum", "metadata", "str"] + \
+        (["nnz"] if allow_nnz else [])
+    if only:
+        kinds = list(only)
+
+    def pre():
+        for _ in range(rr.randint(1, 2)):
+            k = rr.choice(kinds)
+            if k == "sum" and not t.matrix_data.has_sorted_indices:
+                # scipy's sum sorts the indices IN PLACE: correct, but the storage order the model predicts the call
+                # log in is the one at kernel entry; another read is drawn instead
+                k = "cell"
+            if k == "data-obs":
+                t.data(rr.choice(obs), axis="observation")
+            elif k == "data-samp":
+                t.data(rr.choice(samp), axis="sample")
+            elif k == "cell":
+                t.get_value_by_ids(rr.choice(obs), rr.choice(samp))
+            elif k == "iter-obs":
+                list(t.iter(axis="observation"))
+            elif k == "iter-samp":
+                list(t.iter(axis="sample"))
+            elif k == "sum":
+                t.sum(rr.choice(["sample", "observation", "whole"]))
+            elif k == "metadata":
+                t.metadata(axis=rr.choice(["sample", "observation"]))
+            elif k == "str":
+                str(t)
+            else:
+                int(t.nnz)
+
+    def g(v, i, m):
+        pre()
+        return f(v, i, m)
+    g.pre = pre
+    g.core = f
+    return g
+
+
 def build_case_table(case):
     if "sparse" in case:
         # hand-made sparse input (may carry explicitly stored zeros)
@@ -208,7 +314,11 @@ def build_case_table(case):
         m = cls((np.array([float(core.unfrac(x)) for x in s["data"]]), np.array(s["indices"], dtype=np.int32),
                  np.array(s["indptr"], dtype=np.int32)), shape=tuple(s["shape"]))
         return Table(m, case["spec"]["obs"], case["spec"]["samp"])
-    return apply_hist(core.build(case["spec"], case["route"]), case.get("hist"))
+    t = core.build(case["spec"], case["route"])
+    if case.get("addmd"):
+        # metadata added for SOME IDs only: the others get entries that hold no key
+        t.add_metadata({k: dict(v) for k, v in case["addmd"]["md"].items()}, axis=case["addmd"]["axis"])
+    return apply_hist(t, case.get("hist"))
 
 
 HISTS = [None, None, "csc-transform", "csc-filter", "csr-transform", "rank-min-sample", "rank-ordinal-observation",
@@ -242,8 +352,8 @@ def view_tables(t, rng, which=None):
     """the content of `t` as seen through per-ID accessors, asked in random order: one table JSON per accessor"""
     obs_ids = [str(i) for i in t.ids(axis="observation")]
     samp_ids = [str(i) for i in t.ids()]
-    frame = {"obs": obs_ids, "samp": samp_ids, "omd": core.canon_md(t.metadata(axis="observation")),
-             "smd": core.canon_md(t.metadata(axis="sample")), "type": t.type}
+    frame = {"obs": obs_ids, "samp": samp_ids, "omd": canon_md(t.metadata(axis="observation")),
+             "smd": canon_md(t.metadata(axis="sample")), "type": t.type}
     kinds = ["by-obs", "by-samp", "by-cell", "iter-obs", "iter-samp"]
     rng.shuffle(kinds)
     if which is not None:
@@ -304,7 +414,7 @@ def make_bystanders(t, rng):
     out = []
     for name, mk in cands[:rng.randint(1, 3)]:
         b = mk()
-        out.append((name, b, core.table_obs(b)))
+        out.append((name, b, table_obs(b)))
     return out
 
 
@@ -314,9 +424,14 @@ def invoke(case, t):
     axis, inplace = case["axis"], case["inplace"]
     pos = case.get("call") == "positional"   # the docstring's spelling: t.transform(f, 'observation', False)
     if op == "transform":
+        f = py_fn(case["fn"])
+        if case.get("reenter") is not None:
+            allow_nnz = (not inplace) or case["fn"]["name"] in NONZEROING or \
+                (case["fn"]["name"] == "scale" and case["fn"]["k"] != "0") or bool(case.get("nnz-probe"))
+            f = reentrant(f, t, case["reenter"], allow_nnz, only=["nnz"] if case.get("nnz-probe") else None)
         if pos:
-            return t.transform(py_fn(case["fn"]), axis, inplace)
-        return t.transform(py_fn(case["fn"]), axis=axis, inplace=inplace)
+            return t.transform(f, axis, inplace)
+        return t.transform(f, axis=axis, inplace=inplace)
     if op == "norm":
         return t.norm(axis, inplace) if pos else t.norm(axis=axis, inplace=inplace)
     if op == "pa":
@@ -418,7 +533,7 @@ def check_table(ctx, impls, case, tags=()):
                 t.data(i, axis=rd_axis)
             list(t.iter(axis=rd_axis))
             ctx.count("table:settled-before-call")
-    before = core.table_obs(t)
+    before = table_obs(t)
     facts = core.layout_facts(t)
     axis = case["axis"] if case["op"] != "pa" else "sample"
     profile = case.get("profile")
@@ -434,7 +549,7 @@ def check_table(ctx, impls, case, tags=()):
                                                                     "axis=" + axis), detail={"exc": repr(e)})
         return None
     # by-ID clauses are evaluated on what is read right after the call, before any other accessor
-    obs = {"log": cap.get("log", []), "result": core.table_obs(res), "selfAfter": core.table_obs(t),
+    obs = {"log": cap.get("log", []), "result": table_obs(res), "selfAfter": table_obs(t),
            "sameObj": res is t, "storedZeros": core.layout_facts(res).get("stored_zeros", 0)}
     extra = {}
     if srng is not None:
@@ -452,18 +567,18 @@ def check_table(ctx, impls, case, tags=()):
     if srng is not None:
         ttags = tuple(tags) + ("table", "stress", "impl=" + case["impl"], "op=" + case["op"], "axis=" + axis)
         for name, b, b_before in bystanders:
-            if core.table_obs(b) != b_before or not coherent_lookup(b):
+            if table_obs(b) != b_before or not coherent_lookup(b):
                 ctx.fail(case, "bystander-changed", ttags + ("bystander=" + name,),
-                         detail={"before": b_before, "after": core.table_obs(b)})
+                         detail={"before": b_before, "after": table_obs(b)})
         if not coherent_lookup(res) or not coherent_lookup(t):
             ctx.fail(case, "lookup-incoherent", ttags)
         if res is not t:
             # the other direction: changing the RESULT in place must not reach the receiver
-            keep = core.table_obs(t)
+            keep = table_obs(t)
             res.transform(lambda v, i, m: v * 2, axis=srng.choice(["sample", "observation"]), inplace=True)
             res.pa(inplace=True)
-            if core.table_obs(t) != keep:
-                ctx.fail(case, "result-aliases-receiver", ttags, detail={"before": keep, "after": core.table_obs(t)})
+            if table_obs(t) != keep:
+                ctx.fail(case, "result-aliases-receiver", ttags, detail={"before": keep, "after": table_obs(t)})
     return r
 
 
@@ -474,7 +589,7 @@ def check_refused(ctx, impls, case, tags=()):
     t = build_case_table(case)
     srng = random.Random(case.get("stress", 0))
     bystanders = make_bystanders(t, srng)
-    before = core.table_obs(t)
+    before = table_obs(t)
     kind = case["refuse"]
     calls = []
 
@@ -513,10 +628,10 @@ def check_refused(ctx, impls, case, tags=()):
         ctx.fail(case, "refused-with:" + type(raised).__name__, ttags, detail={"exc": repr(raised)})
     if kind.startswith("bad-axis") and calls:
         ctx.fail(case, "function-called-before-refusal", ttags, detail={"calls": calls})
-    if core.table_obs(t) != before or not coherent_lookup(t):
-        ctx.fail(case, "refused-call-changed-receiver", ttags, detail={"before": before, "after": core.table_obs(t)})
+    if table_obs(t) != before or not coherent_lookup(t):
+        ctx.fail(case, "refused-call-changed-receiver", ttags, detail={"before": before, "after": table_obs(t)})
     for name, b, b_before in bystanders:
-        if core.table_obs(b) != b_before or not coherent_lookup(b):
+        if table_obs(b) != b_before or not coherent_lookup(b):
             ctx.fail(case, "bystander-changed", ttags + ("bystander=" + name,))
     return None
 
@@ -550,7 +665,21 @@ def ask_table(ctx, case, before, axis, inplace, cap, obs, facts, tags, more=None
         ctx.count("table:profile=%s" % case["profile"])
     if case.get("call"):
         ctx.count("table:call=%s" % case["call"])
+    if case.get("mdmode"):
+        ctx.count("table:md=%s" % case["mdmode"])
+    if case.get("reenter") is not None:
+        ctx.count("table:reentrant,inplace=%s" % inplace)
+        tags = tags + ("reentrant",)
+    if case.get("nnz-probe"):
+        tags = tags + ("reentrant=nnz", "fn-zeroes", "inplace-own-arrays")
     r = ctx.driver.ask(req)
+    if case.get("nnz-probe") and not r["holds"] and ctx.match_known(r["clause"], tags) is None:
+        # candidate finding reported to the lead (not in known_findings.json yet): `Table.nnz` compacts the matrix the
+        # kernel is walking when the function has already written a zero; recorded, not raised, until classified
+        ctx.count("finding-candidate:reentrant-nnz-after-zeroing-inplace:reproduced(%s)" % r["clause"])
+        return r
+    if case.get("nnz-probe") and r["holds"]:
+        ctx.count("finding-candidate:reentrant-nnz-after-zeroing-inplace:not-reproduced")
     if not r["holds"]:
         ctx.fail(case, r["clause"], tags, detail={"obs": obs, "cs": cap["cs"], "model": r["model"]})
     elif not r["contract"]:
@@ -567,7 +696,7 @@ def check_axisfree(ctx, impls, case, tags=()):
     mods = impls[case["impl"]]
     results = []
     t0 = build_case_table(case)
-    before = core.table_obs(t0)
+    before = table_obs(t0)
     with kernels.use_kernels(mods):
         for axis in ("sample", "observation"):
             for inplace in (True, False):
@@ -576,7 +705,7 @@ def check_axisfree(ctx, impls, case, tags=()):
                     res = t.pa(inplace=inplace)
                 else:
                     res = t.transform(py_fn(case["fn"]), axis=axis, inplace=inplace)
-                results.append(core.table_obs(res))
+                results.append(table_obs(res))
     ctx.case(case, nontrivial=nnz_of(before["rows"]) >= 2 and asym(before["rows"]))
     ctx.count("axisfree:%s" % case["impl"])
     r = ctx.driver.ask({"op": "axisfree", "t": before, "fn": case["fn"], "results": results})
@@ -607,7 +736,7 @@ def check_cli(ctx, impls, case, tags=()):
             with biom_open(inp, "w") as fh:
                 t.to_hdf5(fh, "c13")
         loaded = load_table(inp)
-        before = core.table_obs(loaded)
+        before = table_obs(loaded)
         facts = core.layout_facts(loaded)
         spell = case.get("spell")
         if spell == "long":
@@ -650,8 +779,8 @@ def check_cli(ctx, impls, case, tags=()):
             ctx.case(case, nontrivial=True)
             return None
         result = load_table(out)
-        robs = core.table_obs(result)
-        api = core.table_obs(invoke(dict(case, inplace=False), load_table(inp)))
+        robs = table_obs(result)
+        api = table_obs(invoke(dict(case, inplace=False), load_table(inp)))
     finally:
         shutil.rmtree(TMP, ignore_errors=True)
     axis = case["axis"] if case["op"] == "norm" else "sample"
@@ -757,6 +886,30 @@ def decorate(rng, case):
     if rng.random() < 0.2:
         case["spec"], how = tricky_ids(rng, case["spec"])
         case["ids"] = how
+    ordinary = "wild" not in case
+    key = "omd" if case["axis"] == "observation" else "smd"
+    ids = case["spec"]["obs" if case["axis"] == "observation" else "samp"]
+    uses_args = False
+    if case["op"] == "transform" and ordinary and rng.random() < 0.35:
+        case["fn"] = rng.choice(ARGUSERS)   # the value depends on the ID text / on md[key]
+        uses_args = True
+    if uses_args or rng.random() < 0.1:
+        mode = rng.choice(["hetero", "hetero", "addmd", "addmd-on-none", "as-generated"])
+        if mode == "hetero":
+            case["spec"] = dict(case["spec"], **{key: hetero_md(rng, ids)})
+            if rng.random() < 0.3:
+                other = "smd" if key == "omd" else "omd"
+                case["spec"][other] = hetero_md(rng, case["spec"]["samp" if other == "smd" else "obs"])
+        elif mode.startswith("addmd"):
+            if mode == "addmd-on-none":
+                case["spec"] = dict(case["spec"], **{key: None})
+            some = [i for i in ids if rng.random() < 0.5] or [ids[0]]
+            case["addmd"] = {"axis": case["axis"],
+                             "md": {i: rng.choice([{"factor": rng.randint(0, 4)}, {"factor": 2, "grp": "z"},
+                                                   {"depth": rng.randint(1, 3)}]) for i in some}}
+        case["mdmode"] = mode
+    if case["op"] == "transform" and rng.random() < 0.3:
+        case["reenter"] = rng.randrange(1 << 30)   # the function reads the receiver while the transform runs
     return case
 
 
@@ -821,6 +974,27 @@ def fixed_corpus(impl_names):
                         out.append(dict(base, op="transform", fn={"name": "reverse"}))
                 out.append({"level": "table", "impl": impl, "op": "norm", "spec": chain, "route": "csc", "hist": None,
                             "axis": axis, "inplace": inplace, "wild": "fixed"})
+        # the function uses its metadata argument (a key held by one entry only, via ctor and via add_metadata) and
+        # reads the table it is transforming along the other axis (spike-in scaling / blank subtraction)
+        sq = {"obs": ["SPIKE", "O2", "O3"], "samp": ["S1", "S2", "BLANK"], "rows": [[5.0, 0.0, 2.0], [0.0, 3.0, 4.0],
+              [1.0, 6.0, 0.0]], "omd": None, "smd": None, "type": None}
+        for axis in ("sample", "observation"):
+            ids = sq["samp"] if axis == "sample" else sq["obs"]
+            key = "smd" if axis == "sample" else "omd"
+            for inplace in (True, False):
+                base = {"level": "table", "impl": impl, "op": "transform", "route": "dense", "axis": axis,
+                        "inplace": inplace}
+                out.append(dict(base, spec=sq, hist=None, fn={"name": "byMdKey", "key": "factor"},
+                                addmd={"axis": axis, "md": {ids[1]: {"factor": 4}}}))
+                out.append(dict(base, spec=dict(sq, **{key: [{}, {"factor": 4}, None]}), hist="csc-transform",
+                                fn={"name": "byMdKey", "key": "factor"}))
+                for hist in (None, "csc-transform"):
+                    for k, fn in enumerate(({"name": "scale", "k": "2"}, {"name": "zeroOdd"}, {"name": "reverse"})):
+                        out.append(dict(base, spec=sq, hist=hist, fn=fn, reenter=1000 + k))
+            # candidate finding: nnz read inside an in-place transform after the function has written a zero
+            out.append({"level": "table", "impl": impl, "op": "transform", "route": "dense", "axis": axis,
+                        "inplace": True, "spec": sq, "hist": "csc-transform" if axis == "sample" else None,
+                        "fn": {"name": "zeroOdd"}, "reenter": 7, "nnz-probe": True})
         # kernel level: a stored zero is handed to the function (NoStoredZeros is needed below the API)
         out.append({"level": "kernel", "impl": impl, "axisnum": 0, "nMajor": 2, "nMinor": 3, "indptr": [0, 3, 4],
                     "indices": [0, 1, 2, 1], "data": ["3", "0", "5", "2"], "ids": ["a", "b"], "mds": None,
@@ -886,7 +1060,7 @@ def run(ctx):
     quick = ctx.quick()
     nw = max(1, getattr(ctx, "worker", (0, 1))[1])  # thorough totals are split over the worker processes
     n_kernel = 800 if quick else 80000 // nw
-    n_table = 1100 if quick else 100000 // nw
+    n_table = 1000 if quick else 100000 // nw
     n_axis = 100 if quick else 6000 // nw
     n_cli = 20 if quick else 800 // nw
     # systematic kernel sweep: every named function x stored zeros x index order, on both implementations
